@@ -299,6 +299,7 @@ func main() {
 		}
 	}
 	structural(pkgs)
+	indexSites(pkgs)
 
 	var buf bytes.Buffer
 	buf.WriteString("/- GENERATED by /verif/harness/extract from the working tree of /repo. Do not edit. -/\n")
